@@ -40,7 +40,7 @@ fn main() {
                 // dominance-sensitive shapes need room: joins fed by arms of different length
                 cfg.max_blocks = rng.range(4, 9) as usize;
                 cfg.max_ins = 2;
-                let function = fv::gen::function(&mut rng, &cfg, 0x1000);
+                let function = fv::gen::any_function(&mut rng, &cfg, 0x1000);
                 let x = XProg {
                     function, scalars: scalars.clone(), big: rng.bool(), mem_base: 0x2000,
                     inits: xplor::initial_states(&mut rng, &scalars, 0x2000, 2),
